@@ -20,7 +20,7 @@ def opsC17PreRules (op : String) (j : Json) : Option (Except String Json) :=
   | "c17.range_cell" => some do
       let raw ← getStr j "raw"
       if !(Controls.isAscii raw) then return outJson (.unsupported "non-ASCII cell") else
-      pure (outJson (rangeCell raw))
+      pure (outJson (rangeCellOfSheet raw))
   | _ => none
 
 end Pyxv.PreRules
